@@ -424,7 +424,7 @@ func TestVerifC01(t *testing.T) {
 	}
 	/* ---------- Route 4: UI frames over hostile worlds, incl. failing hooks with hostile output ---------- */
 	hookDir()
-	nSessions := c.Share(c.Pick(12, 160))
+	nSessions := c.Share(c.Pick(30, 160))
 	for i := 0; i < nSessions; i++ {
 		n := caseNo + i
 		if c.Past(n) || c.Stop() {
@@ -456,7 +456,7 @@ func TestVerifC01(t *testing.T) {
 		tokens := randomTokens(r, g, feedNames, c.Pick(80, 200), false)
 		for i := 3; i < len(tokens); i += 5 {
 			// the first link of whatever is highlighted then (hostile addresses are in the bodies) is opened with the hook
-			tokens[i] = tok("number 1 then \"\\r\"", []string{"1\r", "2\r", "o"}[r.Intn(3)])
+			tokens[i] = tok("number 1 then \"\\r\"", []string{"1\r", "1\r", "2\r", "o"}[r.Intn(4)])
 		}
 		for _, tk := range tokens {
 			stop := false
@@ -516,14 +516,27 @@ func sortedKeys(m map[string]string) []string {
 // decorateHostile plants payloads into names, handles, bodies and extra fields of a world
 func decorateHostile(g *world.Generated, r *rand.Rand, all []payload) {
 	pick := func() string { return all[r.Intn(len(all))].raw }
+	// inside attribute values only character references survive the JSON layer: addresses get those more often than not
+	var refs []string
+	for _, p := range all {
+		if strings.Contains(p.raw, "&#") {
+			refs = append(refs, p.raw)
+		}
+	}
+	pickRef := func() string {
+		if len(refs) == 0 || r.Intn(3) == 0 {
+			return pick()
+		}
+		return refs[r.Intn(len(refs))]
+	}
 	for _, n := range g.Nodes {
 		if r.Intn(3) > 0 {
 			continue
 		}
 		switch n.Kind {
 		case "post":
-			n.Body = "<p>text " + pick() + " <a href=\"https://x.example/" + pick() + "\">l " + pick() + "</a> <img src=\"s\" alt=\"" + pick() + "\"></p>"
-			n.BodyType = []string{"text/html", "text/markdown", "text/plain", "text/gemini"}[r.Intn(4)]
+			n.Body = "<p>text " + pick() + " <a href=\"https://x.example/a" + pickRef() + "b" + pickRef() + "c\">l " + pick() + "</a> <img src=\"https://x.example/s" + pickRef() + "\" alt=\"" + pick() + "\"></p>"
+			n.BodyType = []string{"text/html", "text/html", "text/markdown", "text/plain", "text/gemini"}[r.Intn(5)]
 			n.BodyLinks = nil
 			n.Extra = map[string]any{"summary": pick(), "updated": pick()}
 		case "actor":
